@@ -60,15 +60,18 @@ def _case(draw):
     for _ in range(n):
         kind = draw(st.sampled_from(["txt", "txt", "bin", "html", "dir", "mbox"]))
         b = draw(st.one_of(gen.tame_base, gen.names(toplevel=True, full=True)))
-        name = {"txt": b + draw(st.sampled_from([".txt", "", ".c"])), "bin": b + draw(st.sampled_from([".gif", ".pdf", ".tar.gz"])),
+        name = {"txt": b + draw(st.sampled_from([".txt", "", ".c", ".txt", "", ".3d", ".ask", ".keywords", ".abstract"])), "bin": b + draw(st.sampled_from([".gif", ".pdf", ".tar.gz"])),
                 "html": b + ".html", "dir": b, "mbox": b + ".mbox"}[kind]
         if name in used or not gen.servable_name(name, True, True):
+            continue
+        # an item must not double as another item's sidecar (nor the other way round)
+        if any(name.endswith(e) and name[:-len(e)] in used for e, _ in EA) or any(name + e in used for e, _ in EA):
             continue
         used.add(name)
         side = {}
         if kind != "mbox":
             for ext, _ in EA:
-                if draw(st.integers(0, 2)) == 0:
+                if draw(st.integers(0, 2)) == 0 and name + ext not in used:
                     side[ext] = draw(_sidecar())
         items.append({"name": name, "kind": kind, "size": draw(st.sampled_from([0, 1, 500, 1023, 1024, 1025, 5000])), "side": side,
                       # a UMN override of the same item (display name / number): the sidecar blocks must survive the merge
